@@ -272,6 +272,14 @@ def h_grow(dtype, k, t, op):
             r = call(lambda: a.extend(other))
             exp = O.ref_concat(x, e)
             needs_whole = True
+        elif op == 'extend-array-trailing':
+            # the other Array's items are appended, not its trailing bits (list model: a.extend(other.tolist()))
+            other = bitstring.Array(dtype, [v], trailing_bits='0b1' if w > 1 else None)
+            if w == 1:
+                return True
+            r = call(lambda: a.extend(other))
+            exp = O.ref_concat(x, e)
+            needs_whole = True
         elif op == 'insert':
             i = K.int('i')
             r = call(lambda: a.insert(i, v))
@@ -438,6 +446,65 @@ def h_arith(dtype, k, opn, inplace):
     return h
 
 
+def h_reflected(dtype, k, opn):
+    """scalar (op) Array: maps the Python operator with the scalar on the left over the items"""
+    def h(K):
+        import bitstring
+        import bitarray.util as U
+        a, x, w = _arr(K, dtype, k, 0)
+        signed = DT[dtype][1] == 'int'
+        s = K.choice('scalar', [-3, -1, 0, 1, 2, 5, (1 << (w - 1)) - 1, (1 << w) - 1, 1 << w])
+        f = {'rsub': lambda: s - a, 'radd': lambda: s + a, 'rmul': lambda: s * a}[opn]
+        py = {'rsub': lambda it: s - it, 'radd': lambda it: s + it, 'rmul': lambda it: s * it}[opn]
+        r = call(f)
+        items = [U.ba2int(seg, signed=signed) for seg in _items(x, w, k)]
+        res = [py(it) for it in items]
+        fits = True
+        for v in res:
+            fits = fits and _fits(dtype, v)
+        if not fits:
+            return K.check(r.raised(ValueError) and same(raw(a.data), x), 'a result that does not fit must raise ValueError', exc=r.excname)
+        if not r.ok:
+            return K.fail('reflected element-wise operator raised although every result fits', exc=r.excname, op=opn, scalar=s)
+        exp = O.ref_concat(*[U.int2ba(v, length=w, signed=signed) for v in res]) if k else O.empty()
+        return K.check(same(raw(r.value.data), exp) and same(raw(a.data), x), 'reflected element-wise operator result', op=opn, got=raw(r.value.data), expected=exp)
+    return h
+
+
+def h_cases(case):
+    """concrete cases of the list model for comparisons across dtypes, scalar comparands of bytes type, and deep copies"""
+    def h(K):
+        import bitstring
+        import copy
+        A = bitstring.Array
+        if case == 'eq-mixed-dtypes':
+            which = K.choice('op', ['eq', 'ne', 'lt', 'ge'])
+            a, b = A('uint8', [1, 2, 3]), A('uint16', [1, 3, 3])
+            r = call(lambda: CMP[which](a, b))
+            want = [CMP[which](p, q) for p, q in zip([1, 2, 3], [1, 3, 3])]
+            return K.check(r.ok and r.value.tolist() == want, 'comparison between Arrays of different dtypes must map the operator over the item pairs', op=which, exc=r.excname)
+        if case == 'eq-bytes-scalar':
+            a = A('bytes2', [b'ab', b'cd', b'ab'])
+            v = K.choice('v', [b'ab', b'cd', b'zz'])
+            r = call(lambda: a == v)
+            return K.check(r.ok and r.value.tolist() == [it == v for it in a.tolist()], 'Array == bytes scalar must compare every item with it', exc=r.excname)
+        if case == 'deepcopy':
+            d = K.choice('dtype', ['uint8', 'float16', 'hex8', 'bool'])
+            vals = {'uint8': [1, 2], 'float16': [0.5, -2.0], 'hex8': ['ab', 'cd'], 'bool': [True, False]}[d]
+            a = A(d, vals, trailing_bits='0b1' if d != 'bool' else None)
+            how = K.choice('how', ['copy.copy', 'copy.deepcopy', '__copy__'])
+            r = call({'copy.copy': lambda: copy.copy(a), 'copy.deepcopy': lambda: copy.deepcopy(a), '__copy__': lambda: a.__copy__()}[how])
+            if not r.ok:
+                return K.fail('copying an Array raised', how=how, exc=r.excname)
+            b = r.value
+            if not K.check(b is not a and b.equals(a) and b.data == a.data and b.data is not a.data, 'copy must be an equal, independent Array', how=how):
+                return False
+            b.append(vals[0]) if not b.trailing_bits else b.data.invert(0)
+            return K.check(a.tolist() == vals, 'mutating the copy changed the original', how=how)
+        raise ValueError(case)
+    return h
+
+
 def h_compare(dtype, k, opn):
     def h(K):
         import bitarray.util as U
@@ -564,7 +631,7 @@ def conditions(tier):
             add(f'C14.read[{d},k={k},t={t}]', h_read(d, k, t), f'all data of {k} items + {t} trailing bits x every int index', dtype=d)
             add(f'C14.setitem[{d},k={k},t={t}]', h_setitem(d, k, t), 'all data x every int index x every value (ints unbounded)', dtype=d)
             add(f'C14.delitem[{d},k={k},t={t}]', h_delitem(d, k, t), 'all data x every int index', dtype=d)
-            for op in ('append', 'extend', 'extend-array', 'insert', 'pop'):
+            for op in ('append', 'extend', 'extend-array', 'extend-array-trailing', 'insert', 'pop'):
                 add(f'C14.{op}[{d},k={k},t={t}]', h_grow(d, k, t, op), 'all data x symbolic values / indices', dtype=d)
             add(f'C14.misc[{d},k={k},t={t}]', h_misc(d, k, t), 'copy, equals (all pairs of data), reverse, dtype change', dtype=d)
         for (k, t) in ([(3, 2)] if q else [(3, 0), (3, 2), (4, 1)]):
@@ -578,6 +645,11 @@ def conditions(tier):
         if d not in ('uintle16', '>H', '<i'):
             add(f'C14.count[{d},k=3]', h_count(d, 3), 'all data of 3 items x value', dtype=d)
         add(f'C14.build[{d}]', h_build(d), 'two symbolic values', dtype=d)
+    for d in (['uint5', 'int8'] if q else ['uint5', 'int8', 'int3', 'uint1']):
+        for opn in ('rsub', 'radd', 'rmul'):
+            add(f'C14.reflected[{d},{opn},k=2]', h_reflected(d, 2, opn), 'all data of 2 items x scalar in {-3,-1,0,1,2,5,2^(w-1)-1,2^w-1,2^w}', dtype=d)
+    for case in ('eq-mixed-dtypes', 'eq-bytes-scalar', 'deepcopy'):
+        add(f'C14.cases[{case}]', h_cases(case), "concrete cases chosen by solver forks")
     for d in COUNT_CASES:
         add(f'C14.count-probe[{d}]', h_count_probe(d), 'concrete items x probes equal to / near / unlike the items (catalogue chosen by solver forks) x trailing bits', dtype=d)
     add('C14.build[bytes2]', h_build('bytes2'), 'two byte strings (byte-multiplier dtype)', dtype='bytes2')
